@@ -299,9 +299,22 @@ func parseReports(txt, driver string) []report {
 		}
 		pair := []string{funcs[0], funcs[1]}
 		sort.Strings(pair)
-		if strings.Contains(pair[0], ").Verif") || strings.Contains(pair[1], ").Verif") || strings.Contains(pair[0], ".Verif") && strings.Contains(pair[0], "zz_") {
+		hook := false
+		for i, f := range pair {
+			base := f[strings.LastIndex(f, ".")+1:]
+			if strings.HasPrefix(f, "webserver/auth.VerifRunGC") {
+				// the hook restates the body of the session GC loop (a closure that cannot be called)
+				pair[i] = "webserver/auth.StartSessionGC(gc loop)" + strings.TrimPrefix(f, "webserver/auth.VerifRunGC")
+				continue
+			}
+			if strings.HasPrefix(base, "Verif") || strings.HasPrefix(base, "verif") || strings.Contains(f, ".Verif") || strings.Contains(f, ".verif") {
+				hook = true
+			}
+		}
+		if hook {
 			continue // one side is a verification hook (ageing etc.), not production code
 		}
+		sort.Strings(pair)
 		ex := blk
 		if len(ex) > 2500 {
 			ex = ex[:2500]
